@@ -58,6 +58,9 @@ def _plain(depth):
 def _case(draw):
     v = draw(_plain(draw(st.sampled_from([0, 1, 2, 2, 3, 3, 4]))))
     case = {"value": v, "rng": draw(rng.script_strategy(6))}
+    if draw(st.integers(0, 5)) == 0:
+        case["shared"] = draw(st.sampled_from(["list", "dict"]))
+        return case
     mode = draw(st.sampled_from(["perturb", "perturb", "perturb", "nonplain"]))
     if mode == "perturb":
         w, path = draw(values.perturb(v))
@@ -110,7 +113,7 @@ def exempt(a, b):
             return True
         if math.isinf(a) or math.isinf(b) or math.isnan(a) or math.isnan(b):
             return False
-        return abs(a - b) < 1e-6 * max(1.0, abs(a), abs(b))
+        return abs(a - b) < 1e-6 * max(abs(a), abs(b))     # relative only (isclose has no absolute part)
     if isinstance(a, _dt.date) and isinstance(b, _dt.date) and type(a) is not type(b):
         return True
     if type(a) is not type(b):
@@ -133,6 +136,9 @@ def check(case, ctx):
     from d42.utils import from_native
 
     v = values.realize(case["value"])
+    if case.get("shared") and isinstance(v, (list, dict)):
+        # a legitimate plain value may reference one (acyclic) container twice
+        v = [v, v] if case["shared"] == "list" else {"first": v, "again": {"nested": v}}
     snapshot = copy.deepcopy(v)
     try:
         S = from_native(v)
@@ -153,6 +159,10 @@ def check(case, ctx):
     if not same(g, v):
         raise Violation("generates-other", f"fake(from_native({v!r})) = {g!r}")
     ctx.label("top:" + type(v).__name__)
+    if case.get("shared"):
+        ctx.label("shared-subobject")
+        ctx.mark_nontrivial(case, sample_class="shared")
+        return
     depth = case.get("depth", 0)
 
     if "perturbed" in case:
